@@ -173,6 +173,58 @@ func (g *verifC07Gen) seqNear(rt *rapid.T, ci int, label string) uint64 {
 	}
 }
 
+// boundaryBytes picks a byte budget that sits exactly on (or one off) the sum
+// of the first k payloads of the rows a scan will visit — the place where an
+// off-by-one in the budget rule shows.
+func (g *verifC07Gen) boundaryBytes(rt *rapid.T, lens []int, label string) int {
+	if len(lens) == 0 {
+		return rapid.IntRange(1, 64).Draw(rt, label+"Any")
+	}
+	k := rapid.IntRange(1, min(len(lens), 6)).Draw(rt, label+"K")
+	sum := 0
+	for _, n := range lens[:k] {
+		sum += n
+	}
+	sum += rapid.IntRange(-1, 1).Draw(rt, label+"Delta")
+	if sum < 1 {
+		sum = 1
+	}
+	return sum
+}
+
+// scanLens returns the payload lengths in the order a forward (from) or
+// reverse (down from hi) scan visits them.
+func (g *verifC07Gen) scanLens(ci int, from uint64, reverse bool) []int {
+	c := g.h.m.chans[ci]
+	var lens []int
+	if reverse {
+		hi := from
+		if hi == 0 {
+			hi = c.leo
+		}
+		for i := len(c.rows) - 1; i >= 0; i-- {
+			if hi == 0 || c.rows[i].Seq <= hi {
+				lens = append(lens, len(c.rows[i].Payload))
+			}
+		}
+		return lens
+	}
+	for i := range c.rows {
+		if c.rows[i].Seq >= from {
+			lens = append(lens, len(c.rows[i].Payload))
+		}
+	}
+	return lens
+}
+
+func (g *verifC07Gen) readOptsAt(rt *rapid.T, ci int, from uint64, reverse bool) ReadOptions {
+	o := g.readOpts(rt)
+	if rapid.IntRange(0, 2).Draw(rt, "boundaryBudget") == 0 {
+		o.MaxBytes = g.boundaryBytes(rt, g.scanLens(ci, from, reverse), "budget")
+	}
+	return o
+}
+
 func (g *verifC07Gen) readOpts(rt *rapid.T) ReadOptions {
 	var o ReadOptions
 	if rapid.IntRange(0, 2).Draw(rt, "hasLimit") == 0 {
@@ -182,6 +234,16 @@ func (g *verifC07Gen) readOpts(rt *rapid.T) ReadOptions {
 		o.MaxBytes = rapid.IntRange(-1, 3*g.maxPay/2+8).Draw(rt, "maxBytes")
 	}
 	return o
+}
+
+func verifC07RowsWithNo(c *verifC07Chan, no string) []uint64 {
+	var seqs []uint64
+	for i := range c.rows {
+		if c.rows[i].ClientMsgNo == no {
+			seqs = append(seqs, c.rows[i].Seq)
+		}
+	}
+	return seqs
 }
 
 func TestVerifC07SequentialLog(t *testing.T) {
@@ -312,6 +374,9 @@ func TestVerifC07SequentialLog(t *testing.T) {
 				}
 				if rapid.IntRange(0, 2).Draw(rt, "hasMaxBytes") == 0 {
 					opts.MaxBytes = rapid.IntRange(1, 2*g.maxPay).Draw(rt, "maxBytes")
+					if rapid.Bool().Draw(rt, "boundaryBudget") {
+						opts.MaxBytes = g.boundaryBytes(rt, g.scanLens(ci, c.ret.PhysicalRetentionThroughSeq+1, false), "trimBudget")
+					}
 				}
 				h.doTrim(ci, through, opts, true)
 			},
@@ -373,14 +438,21 @@ func TestVerifC07SequentialLog(t *testing.T) {
 					uid, no = r.FromUID, r.ClientMsgNo
 				}
 				h.checkIdempotency(ci, IdempotencyKey{FromUID: uid, ClientMsgNo: no})
-				h.checkClientNo(ci, no, g.seqNear(rt, ci, "before"), rapid.IntRange(0, 4).Draw(rt, "pageLimit"))
+				before := g.seqNear(rt, ci, "before")
+				if hits := verifC07RowsWithNo(c, no); len(hits) > 0 && rapid.Bool().Draw(rt, "beforeOnRow") {
+					// page cursor exactly on / next to a row carrying this number
+					before = rapid.SampledFrom(hits).Draw(rt, "beforeRow") + uint64(rapid.IntRange(0, 1).Draw(rt, "beforeDelta"))
+				}
+				h.checkClientNo(ci, no, before, rapid.IntRange(0, 4).Draw(rt, "pageLimit"))
 				h.checkSenderSeq(ci, uid, g.seqNear(rt, ci, "through"))
 				h.note("lookups(%d)", ci)
 			},
 			"reads": func(rt *rapid.T) {
 				ci := ch(rt)
-				h.checkRead(ci, g.seqNear(rt, ci, "from"), g.readOpts(rt))
-				h.checkReadReverse(ci, g.seqNear(rt, ci, "rfrom"), g.readOpts(rt))
+				from := g.seqNear(rt, ci, "from")
+				h.checkRead(ci, from, g.readOptsAt(rt, ci, from, false))
+				rfrom := g.seqNear(rt, ci, "rfrom")
+				h.checkReadReverse(ci, rfrom, g.readOptsAt(rt, ci, rfrom, true))
 				h.checkGetBySeq(ci, g.seqNear(rt, ci, "seq"))
 				h.checkLastVisible(ci, g.seqNear(rt, ci, "after"))
 				h.checkSystem(ci)
